@@ -50,8 +50,14 @@ func (pass *DisjunctionWithNullToOptional) processDisjunction(visitor *Visitor, 
 		return def, nil
 	}
 
+	nonNullTypes := disjunction.Branches.NonNullTypes()
+	if len(nonNullTypes) == 0 {
+		// null | null: nothing to make optional
+		return def, nil
+	}
+
 	// type | null
-	finalType := disjunction.Branches.NonNullTypes()[0]
+	finalType := nonNullTypes[0]
 	finalType.Nullable = true
 	if finalType.Default == nil {
 		// the default declared on `type | null` is a default for `type?`
